@@ -116,7 +116,9 @@ func TestB2C12Codec(t *testing.T) {
 		sets = append(sets, CodeSpaceRange{a})
 		step := 7
 		if thorough {
-			step = 1
+			// with 3-byte ranges there are about 9700 ranges: every 1009th pair (a prime, so
+			// that the partners vary) keeps the run below a minute
+			step = 1009
 		}
 		for j := i + 1; j < len(ranges); j += step {
 			csr := CodeSpaceRange{a, ranges[j]}
